@@ -2,12 +2,14 @@
 // by the verification harness (the sandbox has no PAM headers). It keeps the
 // API surface cmd/auth uses. Policy of the stub "PAM stack": user U is
 // authenticated iff the conversation answers the echo-off prompt with
-// "pw-"+U; users starting with "locked" fail account management.
+// "pw-"+U; users starting with "locked" fail account management; for users
+// starting with "slow" the stack takes 400 ms to answer (a directory lookup).
 package pam
 
 import (
 	"errors"
 	"strings"
+	"time"
 )
 
 type Style int
@@ -40,6 +42,9 @@ func (t *Transaction) Authenticate(f Flags) error {
 	pw, err := t.handler(PromptEchoOff, "Password: ")
 	if err != nil {
 		return err
+	}
+	if strings.HasPrefix(t.user, "slow") {
+		time.Sleep(400 * time.Millisecond)
 	}
 	if t.user != "" && pw == "pw-"+t.user {
 		return nil
